@@ -39,6 +39,11 @@ class BaseMode:
         self.n_structural = 0
         self.key_prefix = ""
         self.samples = []
+        self.canary = {}
+        self._eq_log = []
+
+    def end_of_path(self):
+        pass
 
     def key(self, label, key):
         k = key if key is not None else f"{self.key_prefix}{label.split('[')[0]}"
@@ -200,6 +205,8 @@ class SymMode(BaseMode):
         if op == "eq" and a.q == b.q:
             self.n_obl += 1
             self.n_identity += 1
+            if len(self._eq_log) < 40 and not a.is_const():
+                self._eq_log.append((a, b))
             return True
         if a.is_const() and b.is_const():
             self.n_obl += 1
@@ -224,7 +231,50 @@ class SymMode(BaseMode):
         else:
             r1 = core.cmp_zero((a - b - margin).q, "ge")
             robust = r1 if not isinstance(r1, bool) else z3.BoolVal(r1)
-        return self._check_sym(claim, label, key, detail or f"{op}: got {str(a)[:200]} want {str(b)[:200]}", robust=robust)
+        ok = self._check_sym(claim, label, key, detail or f"{op}: got {str(a)[:200]} want {str(b)[:200]}", robust=robust)
+        if ok and op == "eq" and len(self._eq_log) < 40:
+            self._eq_log.append((a, b))
+        return ok
+
+    def end_of_path(self):
+        """Vacuity canary: cross-wire two equality obligations that held on this path (value of the first against the oracle
+        term of the second, the two oracle terms being different rational functions).  The cross-wired claim must be
+        refutable; if it is proved although the two oracle terms are not equal under the path condition, the path's
+        obligations are vacuous (contradictory assumptions / degenerate terms) and the run says so."""
+        log, self._eq_log = self._eq_log, []
+        if self.canary.get("checked", 0) >= 3 or core.ENG is None:
+            return
+        pair = None
+        for i in range(len(log)):
+            for j in range(len(log) - 1, i, -1):
+                if log[i][1].q != log[j][1].q:
+                    pair = (log[i], log[j])
+                    break
+            if pair:
+                break
+        if pair is None:
+            return
+        (a, b), (_, b2) = pair
+
+        def bump(k):
+            self.canary[k] = self.canary.get(k, 0) + 1
+        bump("checked")
+        claim = core.cmp_zero(a.q - b2.q, "eq")
+        if isinstance(claim, bool):
+            bump("refuted_as_expected" if not claim else "skipped")
+            return
+        try:
+            st, _ = core.ENG.prove(claim, 3000)
+            if st == "cex":
+                bump("refuted_as_expected")
+            elif st == "unknown":
+                bump("unknown")
+            else:
+                c2 = core.cmp_zero(b.q - b2.q, "eq")
+                st2 = "proved" if c2 is True else ("cex" if c2 is False else core.ENG.prove(c2, 3000)[0])
+                bump("skipped_equal_under_path_condition" if st2 == "proved" else "proved_unexpectedly")
+        except (HarnessError, z3.Z3Exception):
+            bump("unknown")
 
     def eq(self, got, want, label, key=None, detail=""):
         return self._rel(got, want, "eq", label, key, detail)
